@@ -104,18 +104,28 @@ CHECKS = {
             "component-wise. Tie: ALL histories up to length 8 plus long random ones, and ParserState / "
             "SnapshottingInt histories, implementation vs extracted model vs an independent reference.", "4.C09",
             "refinement proof over all histories + exhaustive small-scope tie"),
-    "C10": ("proof", "PARTIAL. Accept set and built structure are decided differentially against the reference reader "
-            "(extracted reference semantics running tests/grammars/meta.pest, regenerated into Grammars.v, + "
-            "denote) on generated grammar texts with every syntactic form and layout, bundled grammars, "
-            "mutations. Proved: the reader never reaches an undefined rule, its verdict is fuel-independent, its "
-            "trees are well-formed, it terminates on every text (wf_auto certificate of the meta-grammar checked "
-            "by vm_compute). python-pest's scanner/parser are not modelled.",
-            "4.C10", "reference reader = proved semantics on pest's own meta-grammar; differential"),
-    "C11": ("proof", "PARTIAL. Proved for the reference reader: never abnormal, rejection position inside the text, "
-            "terminates on every text. python-pest's front end: exception type, str() and reported line/column on "
-            "token soups, truncations and mutations of valid grammars and edge texts, with and without optimizer, "
-            "on every run. CPython's recursion limit is outside the model (converted to a syntax error by a fix).",
-            "4.C11", "totality of the reference reader + fault-input differential"),
+    "C10": ("proof", "PARTIAL. (a) Model of python-pest's own front end (Front.v: function-by-function transcription of "
+            "scanner.py, grammar/parser.py, unescape.py, Parser.from_grammar with optimizer=None), tied EXACTLY on every run: "
+            "identical rule table (names, modifiers, docs, tags, expression trees) or identical error position on every "
+            "generated text (~3600 per quick run) - so what is compared below is what the model computes. (b) Accept set and "
+            "built structure are decided differentially against the reference reader (extracted reference semantics running "
+            "tests/grammars/meta.pest, regenerated into Grammars.v, + denote with pest's value limits) on generated grammar "
+            "texts with every syntactic form and layout, bundled grammars, mutations, edge texts. Proved: the front-end model "
+            "is total (C10_front_end_total); the reader never reaches an undefined rule, its verdict is fuel-independent, its "
+            "trees are well-formed, it terminates on every text. NOT proved: equivalence of the front-end model and the "
+            "reference reader (that tie is differential).", "4.C10",
+            "front-end model with exact tie + reference reader = proved semantics on pest's own meta-grammar; differential"),
+    "C11": ("proof", "Theorem C11_front_end_total (FrontProof.v, no axioms): for EVERY text the front end as modelled (Front.v: "
+            "scanner, grammar parser, unescape, from_grammar without optimizer; every Python operation that can raise made an "
+            "explicit partial operation) returns a rule table or a grammar syntax error - no IndexError / ValueError / "
+            "KeyError / AssertionError outcome is reachable and the linear fuel it runs on always suffices (termination) - and "
+            "C11_front_end_error_position: the reported position lies inside the text. The model is tied exactly to "
+            "Parser.from_grammar on every run (rule table or error position on every generated text, incl. truncations, "
+            "mutations, token soups, ~500 hand-written edge texts). Also proved for the reference reader: never abnormal, "
+            "rejection position inside the text, terminates. PARTIAL: the optimizer's part of loading (default pipeline) is "
+            "covered by execution only (exception type, str() and line/column on every text, with and without optimizer); "
+            "CPython's recursion limit is outside the model (the library converts it into a grammar error); message texts.",
+            "4.C11", "totality theorem for a transcribed front-end model + exact differential tie + fault-input differential"),
     "C12": ("proof", "Theorems over unbounded N: ranges exact and case-sensitive; the optimizer's merged class accepts "
             "exactly the union of its parts; ASCII tables in the source (regenerated into Tables.v) equal pest's; ASCII "
             "case variants. Check: EVERY code point U+0000..U+10FFFF through the real parser in four modes for every "
